@@ -25,7 +25,9 @@ SCOPE = {
     "quick": dict(mc="NPods = 2  PodArchs = {2,4,5,7,9,11,12}  Catalogs = {2,4}  PoolSets = {3,5}  Existings = {0,3}  Daemons = {2,3}",
                   gen="NPods = 2  PodArchs = {1,2,3,4,5,6,7,8,9,10,11,12}  Catalogs = {1,2,3,4}  PoolSets = {1,2,3,4,5}  Existings = {0,1,2,3}  Daemons = {0,1,2,3}",
                   replay=600, explore={"basic": 500, "interpod": 150, "reserved": 150}, mc_workers=None),
-    "thorough": dict(mc="NPods = 2  PodArchs = {1,2,3,4,5,6,7,8,9,10,11,12}  Catalogs = {1,2,3,4}  PoolSets = {1,2,3,4,5}  Existings = {0,1,2,3}  Daemons = {0,1,2,3}",
+    # (measured: the full 24 960-scenario scope has 475 656 states / 13 min on 16 shared cores; pool set 1 and existing state 2 are
+    #  sub-cases of pool set 2 / existing state 3, dropping them keeps the closed model at ~60 %)
+    "thorough": dict(mc="NPods = 2  PodArchs = {1,2,3,4,5,6,7,8,9,10,11,12}  Catalogs = {1,2,3,4}  PoolSets = {2,3,4,5}  Existings = {0,1,3}  Daemons = {0,1,2,3}",
                      gen="NPods = 2  PodArchs = {1,2,3,4,5,6,7,8,9,10,11,12}  Catalogs = {1,2,3,4}  PoolSets = {1,2,3,4,5}  Existings = {0,1,2,3}  Daemons = {0,1,2,3}",
                      gen3="NPods = 3  PodArchs = {2,4,5,8,9,10,11,12}  Catalogs = {2,4}  PoolSets = {1,3,5}  Existings = {0,3}  Daemons = {1,3}",
                      replay=None, explore={"basic": 4000, "interpod": 1000, "reserved": 1000}, mc_workers=None),
@@ -72,6 +74,7 @@ def run_driver(run, scenarios, tag, procs):
         for out in ex.map(one, list(enumerate(chunks))):
             files += out["files"]
             sums += out["summaries"]
+            run.extra_cov["hook_h1_events"] = bool(out.get("hook"))
     return files, sums
 
 
@@ -140,7 +143,10 @@ def check(run):
     for s in sums:
         run.note_case(s["name"], (s.get("onNew", 0) + s.get("onExisting", 0)) > 0)
     # 4. trace validation
-    run.validate("Scheduling_Trace", "Scheduling_Trace.cfg", files, par=4 if dev else None, timeout=3000)
+    viol = run.validate("Scheduling_Trace", "Scheduling_Trace.cfg", files, par=4 if dev else None, timeout=3000)
+    drift = [v for v in viol if str(v.get("guard", "")).startswith("Drift_")]
+    if drift:
+        raise vlib.InfraError("the hydrated cluster state differs from the scenario (harness problem, no verdict): %s" % drift[:3])
     run.samples = [{"scenario": scenarios[0]["name"], "summary": sums[0]}, {"scenario": scenarios[-1]["name"], "summary": sums[-1]}]
     run.extra_cov.update({
         "tlc_enumerated_scenarios": total_enum, "tlc_scenarios_replayed": len(enum), "explorer_scenarios": sum(tier["explore"].values()),
